@@ -50,22 +50,6 @@ Cases ==
                                  [op |-> "merge", kids |-> [i \in 1..N |-> V(Family(a)[i])]]]]
                             : a \in Assignments, t \in {T - 1, T}, lo \in BoundSet, hi \in BoundSet}
 
-RECURSIVE Build(_), Denote(_)
-Build(e) ==
-  CASE e.op = "vec"    -> Vec(e.s)
-    [] e.op = "lazy"   -> LazyNew(e.s)
-    [] e.op = "merge"  -> MergeNew([i \in 1..Len(e.kids) |-> Build(e.kids[i])])
-    [] e.op = "concat" -> ConcatNew([i \in 1..Len(e.kids) |-> Build(e.kids[i])])
-    [] e.op = "prune"  -> PruneNew(Build(e.c), e.ts)
-    [] e.op = "bounds" -> BoundsNew(Build(e.c), e.lo, e.hi)
-Denote(e) ==
-  CASE e.op = "vec"    -> e.s
-    [] e.op = "lazy"   -> e.s
-    [] e.op = "merge"  -> DMerge([i \in 1..Len(e.kids) |-> Denote(e.kids[i])])
-    [] e.op = "concat" -> DConcat([i \in 1..Len(e.kids) |-> Denote(e.kids[i])])
-    [] e.op = "prune"  -> DPrune(Denote(e.c), e.ts)
-    [] e.op = "bounds" -> DBounds(Denote(e.c), e.lo, e.hi)
-
 Ops == {<<"first">>, <<"last">>, <<"next">>, <<"prev">>} \cup {<<"seek", k>> : k \in 0..K+1}
 
 Code(e) == e.k * 100 + e.ts * 10 + e.v
